@@ -27,6 +27,8 @@ DecReq(j) ==
          [] j.q = "kM"  -> [q |-> "kM"] @@ pl
          [] j.q = "kA"  -> [q |-> "kA", flow |-> j.flow, beta |-> InRat(j.beta), gamma |-> InRat(j.gamma)] @@ pl
          [] j.q = "cA"  -> [q |-> "cA", aeromu |-> InRat(j.aeromu)] @@ pl
+         [] j.q = "kAmach" -> [q |-> "kAmach", flow |-> j.flow, mach |-> InRat(j.mach), root |-> InRat(j.root),
+                               rho |-> InRat(j.rho), V |-> InRat(j.V), ainf |-> InRat(j.ainf)] @@ pl
          [] j.q = "uvw" -> [q |-> "uvw", c |-> RatSeq(j.c), pts |-> Pts(j.pts)] @@ pl
          [] j.q \in {"strain", "stress"} -> [q |-> j.q, c |-> RatSeq(j.c), pts |-> Pts(j.pts), NL |-> j.NL] @@ pl
          [] j.q \in {"fint", "kT"} -> [q |-> j.q, c |-> RatSeq(j.c)] @@ pl
